@@ -585,6 +585,10 @@ func report(prop string, ld *loaded, ws []*Worker, results []*HarnessResult, kno
 			if confirms(f, out, detail) {
 				violations = append(violations, f)
 				confirmedPer[r.Harness]++
+			} else if f.Kind == "hang" && (out == "pass" || out == "assume") {
+				// the native run finished: the executor's budget was too small for this path, not a hang
+				incomplete = true
+				fmt.Fprintf(os.Stderr, "gosym: candidate hang of %s finishes natively (%s): budget exhaustion, counted as incomplete\n", r.Harness, f.Msg)
 			} else {
 				unconfirmed++
 				fmt.Fprintf(os.Stderr, "gosym: UNCONFIRMED counterexample for %s (%s) at %s [%s]: native outcome %s %s — encoder or stub defect\n", r.Harness, f.Msg, f.Where, f.Stack, out, detail)
